@@ -174,6 +174,34 @@ PROPS = {
         "open_statements": ["the frame condition itself (no transaction step writes shared WAF state) is not a theorem about the Go "
                             "code; it is what `conc` checks"],
     },
+    "C11": {
+        "engines": [{"name": "rxpf", "quick": 3000, "thorough": 120000, "shards": 12, "arg": "corpus/C11/crs_patterns.hex"}],
+        "nontrivial": lambda l, v: " pfnil=0 " in l,
+        "rule": "rxpf: every @rx pattern of the bundled OWASP CRS (corpus/C11/crs_patterns.hex, 291 patterns; every shard runs "
+                "them all with its own inputs) and generated patterns from the regexp/syntax grammar: keyword and delimiter "
+                "literals, one-letter literals, non-ASCII literals (é É ſ Kelvin ß ǆ σ ς Σ), U+FFFD written both ways, classes, "
+                "alternations with shared prefixes (select|set|sleep…), capturing/non-capturing/named/flag-scoped groups, "
+                "? * + {n,m} and lazy forms, ^ $ \\A \\z \\b \\B, (?i) global and scoped, (?-i:), (?s:), (?m:), and the shapes "
+                "\\A<gap>…, …<gap>\\z, ^lit$, (?i)^lit$. Per pattern ~15 inputs: six strings sampled from the language of the "
+                "simplified tree (fold variants through the SimpleFold orbit, invalid bytes for U+FFFD), each with one "
+                "perturbation (byte deleted, case bit flipped, junk/newline prepended or appended, upper/lower-cased, "
+                "k→Kelvin and s→long-s, newline embedded, doubled), the empty string, random bytes, random ASCII. The real "
+                "operator is built twice (RxPreFilterEnabled on/off) and evaluated capturing and non-capturing: results and "
+                "TX.0-9 must be identical; the prefilter's verdict, minimum length and exact-match literal must equal the "
+                "Lean model's, computed from the tree the hook renders. Non-trivial = a prefilter was built.",
+        "modelled": "minLen, hasFlag, extractLiterals, trieReconstruct, rawExtractSuffixes, rawLiteral, longest, filterShort, "
+                    "anyTooShort, literalAfterBeginAnchor/BeforeEndAnchor, buildMultiNeedlePF, buildCombinedPF, newIndexedMatcher "
+                    "with its uint8 shift table, matchCS/matchCI, containsFoldASCII, hasPrefix/SuffixFoldASCII, the guards of "
+                    "prefilterFunc, extractExactMatch. regexp/syntax (parser, Simplify) and the regexp engine are not modelled: "
+                    "the tree is read from the hook, and the regex semantics used by the theorems is an over-approximation "
+                    "stated in Spec/Rx.lean.",
+        "assumptions": ["the tree rendered by the verif hook is the tree prefilterFunc analyses (same Parse+Simplify call on the same string)",
+                        "strings.ToLower is modelled for ASCII, Latin-1, basic Greek and a few specials; other runes under (?i) are outside the model",
+                        "C11_equiv assumes that Go's regexp engine matches only what the relation M of Spec/Rx.lean allows (M over-approximates: "
+                        "classes and empty-width operators other than \\A/\\z are unconstrained; a FoldCase literal rune is the smallest of its fold orbit)"],
+        "open_statements": ["the exact-match fast path (^literal$, non-capturing evaluation) is compared with the regex by the correspondence only: "
+                            "its equivalence needs the precise semantics of anchors and case folding, which Spec/Rx.lean deliberately does not fix"],
+    },
     "C16": {
         "engines": [{"name": "parse", "quick": 12000, "thorough": 400000, "shards": 8}],
         "nontrivial": lambda l, v: " cfg " in l and " => ok R{" in l,
